@@ -168,7 +168,10 @@ func newCtlEnv() *ctlEnv {
 		maxAttestationDelay:          time.Duration(vnd.I64("delay.attestation")),
 		maxProposalDelay:             time.Duration(vnd.I64("delay.proposal")),
 		attestationAggregationDelay:  time.Duration(vnd.I64("delay.aggregation")),
+		// each kind of job has its own configured delay: all different unless the solver says otherwise
+		maxSyncCommitteeMessageDelay: time.Duration(vnd.I64("delay.sync-message")),
 	}
+	vnd.Assume(e.s.maxSyncCommitteeMessageDelay >= 0 && e.s.maxSyncCommitteeMessageDelay < time.Hour)
 	vnd.Assume(e.s.maxAttestationDelay >= 0 && e.s.maxAttestationDelay < time.Hour)
 	vnd.Assume(e.s.maxProposalDelay >= 0 && e.s.maxProposalDelay < time.Hour)
 	vnd.Assume(e.s.attestationAggregationDelay >= 0 && e.s.attestationAggregationDelay < time.Hour)
